@@ -52,19 +52,20 @@ theorem gnu64_fit {nb bs sh : BitVec 32} {size : BitVec 64} (h16 : 16 ≤ size.t
 
 /-- the chain walk stays inside the `nchains` chain words that fit into the section and ends after at
     most `nchains` steps -/
-theorem gnuLoop_total (t : SymTab) (ht : TabOk t) {h : SecBuf} (hs : Sec h) {d : Bytes} (hd : h.data = some d)
+theorem gnuLoop_total (t : SymTab) {is32 : Bool} (ht : TabOk t) {h : SecBuf} (hs : Sec h) {d : Bytes} (hd : h.data = some d)
     (name : Bytes) (hash symoffset : BitVec 32) (chainsBase : Nat) (nchains : BitVec 64)
     (hch : chainsBase + nchains.toNat * 4 ≤ h.size.toNat) (hsmall : nchains.toNat < 4294967296) :
     ∀ (fuel : Nat) (ci ch : BitVec 32) (sn : Bytes) (a : Attrs), ci.toNat < nchains.toNat →
       nchains.toNat + 1 ≤ fuel + ci.toNat →
-      ∃ r, TQ.gnuLoop t (some d) name hash symoffset chainsBase nchains fuel ci ch sn a = .ok r := by
+      ∃ r, TQ.gnuLoopT is32 t (some d) name hash symoffset chainsBase nchains fuel ci ch sn a = .ok r := by
   intro fuel
   induction fuel with
   | zero => intro ci ch sn a h1 h2; omega
   | succ k ih =>
     intro ci ch sn a h1 h2
-    unfold TQ.gnuLoop
-    dsimp only
+    unfold TQ.gnuLoopT
+    tq_tie
+    try dsimp only
     have hci : (ci + 1).toNat = ci.toNat + 1 := by
       have h1' : (1 : BitVec 32).toNat = 1 := rfl
       simp only [BitVec.toNat_add, h1', Nat.reducePow]
@@ -83,7 +84,7 @@ theorem gnuLoop_total (t : SymTab) (ht : TabOk t) {h : SecBuf} (hs : Sec h) {d :
               if BitVec.ule nchains (BitVec.setWidth 64 (ci + 1)) = true then pure (false, r.2.2) else
               match SymTab.rd32 "gnu_hash_lookup/chain" t.cfg.enc (some d) (chainsBase + (ci + 1).toNat * 4) with
               | .error f => .error f
-              | .ok ch' => TQ.gnuLoop t (some d) name hash symoffset chainsBase nchains k (ci + 1) ch' r.2.1 r.2.2) = .ok q := by
+              | .ok ch' => TQ.gnuLoopT is32 t (some d) name hash symoffset chainsBase nchains k (ci + 1) ch' r.2.1 r.2.2) = .ok q := by
       intro r c1 c2
       by_cases h1 : c1 = true
       · rw [if_pos h1]; exact ⟨_, rfl⟩
@@ -97,7 +98,7 @@ theorem gnuLoop_total (t : SymTab) (ht : TabOk t) {h : SecBuf} (hs : Sec h) {d :
       have := hlt hn
       rw [sym_rd32_ok hs hd _ _ _ (by omega)]
       exact ih _ _ _ _ this (by omega)
-    cases hc : t.c32 with
+    cases is32 with
     | true =>
       simp only [if_true, tq_gnu32_next_oob]
       have hsym : ∃ r, (if gnu32_hash_match ch hash = true then
@@ -123,7 +124,8 @@ theorem gnuLoop_total (t : SymTab) (ht : TabOk t) {h : SecBuf} (hs : Sec h) {d :
     the 32-bit chain index then cannot wrap) -/
 theorem gnuLookup_total (t : SymTab) (ht : TabOk t) (h : SecBuf) (hs : Sec h) (hsmall0 : Small h)
     (name : Bytes) (a : Attrs) : ∃ r, TQ.gnuLookup t h name a = .ok r := by
-  unfold TQ.gnuLookup
+  unfold TQ.gnuLookup TQ.gnuLookupT
+  tq_tie
   simp only [hs.secData]
   have hhdr : (if t.c32 = true then tq_gnu32_hdr_bad h.data.isNone h.size else tq_gnu64_hdr_bad h.data.isNone h.size) =
       tq_gnu32_hdr_bad h.data.isNone h.size := by split <;> rfl
